@@ -364,6 +364,95 @@ fn zero_arg_cells(ctx: &vh::explore::Ctx, stats: &mut Stats) {
 /// Calls into the mock made by destructors: of a value the mock itself holds (released inside the
 /// final verification), and of a guard that is dropped while its thread unwinds from a user panic.
 /// The call is refused, the destructor swallows the panic; verifying the original reports it.
+mod delegated {
+    use unimock::*;
+
+    #[unimock(api = DgMock)]
+    pub trait Dg {
+        fn dreq(&self, x: u8) -> u32;
+        fn dprov(&self, x: u8) -> u32 {
+            self.dreq(x) + 1
+        }
+        fn prov_mut(&mut self, x: u8) -> u32 {
+            self.dreq(x) + 1
+        }
+        fn prov_pin(self: core::pin::Pin<&mut Self>, x: u8) -> u32 {
+            self.dreq(x) + 1
+        }
+        fn big(&self, payload: Vec<u16>) -> u32;
+    }
+}
+
+/// A mock error raised inside a default body (i.e. through the internal helper instance), and an
+/// error whose text is long: both are remembered in full like any other.
+fn delegated_and_long_cells(ctx: &vh::explore::Ctx, stats: &mut Stats) {
+    use delegated::*;
+    use unimock::*;
+    let mut cell = |name: String, needle: &str, verdict: Verdict| {
+        ctx.tick();
+        stats.add("traces_validated_against_impl", 1);
+        stats.add("transitions", 2);
+        stats.add("delegated_and_long_cells", 1);
+        let ok = matches!(&verdict, Verdict::Failed(lines) if lines.join("\n").contains(needle));
+        if !ok {
+            ctx.violation(
+                &format!("delegated-or-long/{name}"),
+                &format!("{name}: the swallowed mock error must be carried by the verification of the original in full ({} bytes, starting {:?}); verification gave {:?}", needle.len(), &needle[..needle.len().min(60)], verdict),
+                vh::json::J::obj().set("cell", name.as_str()),
+            );
+        }
+    };
+    for receiver in 0..3usize {
+        for via_clone in [false, true] {
+            for on_thread in [false, true] {
+                if on_thread && (!via_clone || ctx.variant != "std") {
+                    continue;
+                }
+                let original = Unimock::new(DgMock::dreq.each_call(matching!(0)).returns(1u32));
+                let _ = original.dreq(0);
+                let act = move |mut u: Unimock| {
+                    let _ = catch(std::panic::AssertUnwindSafe(|| match receiver {
+                        0 => u.dprov(5),
+                        1 => u.prov_mut(5),
+                        _ => core::pin::Pin::new(&mut u).prov_pin(5),
+                    }));
+                    u
+                };
+                let original = if via_clone {
+                    let c = original.clone();
+                    if on_thread {
+                        let _ = std::thread::spawn(move || drop(act(c))).join();
+                    } else {
+                        drop(act(c));
+                    }
+                    original
+                } else {
+                    act(original)
+                };
+                cell(
+                    format!("error-inside-default-body/{}/{}{}", ["&self", "&mut self", "Pin<&mut Self>"][receiver], if via_clone { "clone" } else { "original" }, if on_thread { "/worker-thread" } else { "" }),
+                    "Dg::dreq(5): No matching call patterns.",
+                    verify_by(original, VerifyHow::Drop),
+                );
+            }
+        }
+    }
+    for len in [8usize, 300, 2000] {
+        let original = Unimock::new(DgMock::dreq.each_call(matching!(0)).returns(1u32));
+        let _ = original.dreq(0);
+        let payload: Vec<u16> = (0..len as u16).map(|k| 1000 + k).collect();
+        // (in the no_std feature sets a mock error raised through the original itself switches its
+        // verification off: there the call goes through a clone)
+        let caller = if ctx.variant == "std" { None } else { Some(original.clone()) };
+        let text = match catch(|| caller.as_ref().unwrap_or(&original).big(payload)) {
+            Err(msg) => msg,
+            Ok(v) => format!("UNEXPECTED VALUE {v}"),
+        };
+        drop(caller);
+        cell(format!("long-error-text/{len}-elements"), text.trim_end(), verify_by(original, VerifyHow::Drop));
+    }
+}
+
 fn destructor_cells(ctx: &vh::explore::Ctx, stats: &mut Stats) {
     use unimock::*;
     struct CallsOnDrop(Unimock);
@@ -630,6 +719,7 @@ fn main() {
     }
     many_errors_cells(ctx, &mut stats);
     destructor_cells(ctx, &mut stats);
+    delegated_and_long_cells(ctx, &mut stats);
     guard(&stats, 12, true);
     let s_traces = stats.get("traces_validated_against_impl");
 
